@@ -144,7 +144,7 @@ prop("C10", coq_deps=WIRE_DEPS,
 
 prop("C19", coq_deps=["Base.v", "Footprint.v", "FootprintProofs.v", "TableProofs.v", "Generated.v"],
      theorems=["C19_interleave_readonly", "C19_footprints", "C19_schedules", "C19_old_code_refuted",
-               "C19_no_write_through_the_shared_token"],
+               "C19_no_write_through_the_shared_token", "C19_no_package_level_state_written"],
      level_text="PARTIAL proof: a generic theorem over ALL schedules of any number of threads on a shared heap (threads that write only "
                 "what they allocated cannot race and get their solo results), instantiated with footprint programs of the listed token "
                 "operations over arbitrary token layouts and spare capacities; the footprints are tied to the code by a regenerated table "
